@@ -96,6 +96,7 @@ type Engine struct {
 	timeoutMs int
 
 	// configuration
+	Pinned       []ScriptVal
 	Params       map[string]int
 	OpenKnown    map[string]bool // ids of open known findings
 	MaxInstrs    int64
@@ -176,7 +177,21 @@ func (e *Engine) fresh(tag string, w int) *Term {
 	}
 	e.vars = append(e.vars, t)
 	e.varTags = append(e.varTags, tag)
+	if e.Pinned != nil {
+		i := len(e.vars) - 1
+		if i < len(e.Pinned) {
+			e.addPC(tEq(t, constOf(e.Pinned[i].V, w)))
+			e.mdlValid = false
+		}
+	}
 	return t
+}
+
+func constOf(v uint64, w int) *Term {
+	if w == 0 {
+		return boolConst(v != 0)
+	}
+	return bvConst(v, w)
 }
 
 func sanitize(s string) string {
@@ -281,6 +296,13 @@ func (e *Engine) decide(c *Term) bool {
 	}
 	e.taken = append(e.taken, Dec{B: d})
 	e.countDec()
+	if os.Getenv("GOSYM_DEBUG_DEC") != "" {
+		ts := c.String()
+		if len(ts) > 300 {
+			ts = ts[:300] + "..."
+		}
+		fmt.Fprintf(os.Stderr, "decide #%d -> %v : %s\n", idx, d, ts)
+	}
 	if d {
 		e.addPC(c)
 	} else {
@@ -317,6 +339,11 @@ func (e *Engine) concretize(t *Term) uint64 {
 	e.ensureModel()
 	v := e.mdl.eval(t)
 	ex2 := append(append([]uint64{}, excl...), v)
+	if len(ex2) == 6 && os.Getenv("GOSYM_DEBUG_CONC") != "" {
+		buf := make([]byte, 8192)
+		n := runtime.Stack(buf, false)
+		fmt.Fprintf(os.Stderr, "concretize with >=6 values: term %s\n%s\n", t.String(), buf[:n])
+	}
 	if len(ex2) > 4096 {
 		panic(pathTruncated{"symbolic value with more than 4096 feasible concretisations"})
 	}
